@@ -857,6 +857,46 @@ def _ble_layout(ctx: Context, report: bool):
                 ck.unknown(R, f"decode_pdu: return {show(('tuple', el), 100)} is neither the full triple nor (status, 0, b'')", ctx.loc(f, r))
             return None
     if report:
+        # the header-only return (status, 0, b"") is taken exactly when the length field is incomplete: len(data) < end of the
+        # length field.  A wider test (<=) drops the declared length of a first fragment that carries the full header and no
+        # body byte; a narrower one lets the unpack of the length field fail.
+        dname = f.pos_params[1] if len(f.pos_params) > 1 else None
+        for r in rets:
+            el = T.of(cfg, r, r.exprs[0])[1]
+            if not (is_status(el[pos[0]]) and el[pos[1]] == ("const", 0) and el[pos[2]] == ("const", b"")):
+                continue
+            thr = []
+            for n in cfg.nodes:
+                if n.kind != "test" or not isinstance(n.exprs[0], ast.Compare) or len(n.exprs[0].ops) != 1:
+                    continue
+                e = n.exprs[0]
+                l, rr = e.left, e.comparators[0]
+                op = type(e.ops[0]).__name__
+                if not (isinstance(l, ast.Call) and isinstance(l.func, ast.Name) and l.func.id == "len"):
+                    l, rr = rr, l
+                    op = {"Lt": "Gt", "Gt": "Lt", "LtE": "GtE", "GtE": "LtE"}.get(op, op)
+                if not (isinstance(l, ast.Call) and isinstance(l.func, ast.Name) and l.func.id == "len" and l.args and isinstance(l.args[0], ast.Name) and l.args[0].id == dname):
+                    continue
+                k = ctx.const(f, rr, None)
+                if not isinstance(k, int):
+                    continue
+                # which outcome leads to this return, and which strict bound  len < K'  does it mean?
+                for lab in ("T", "F"):
+                    for ed in cfg.out_edges(n, (lab,)):
+                        if r.id in cfg.reachable_from(ed[1]) | {ed[1]} and not any(r.id in (cfg.reachable_from(e2[1]) | {e2[1]}) for e2 in cfg.out_edges(n, ("F" if lab == "T" else "T",))):
+                            bound = {("Lt", "T"): k, ("LtE", "T"): k + 1, ("GtE", "F"): k, ("Gt", "F"): k + 1}.get((op, lab))
+                            if bound is not None:
+                                thr.append((n, bound))
+            if not thr:
+                ck.unknown(R, "decode_pdu: the header-only return is not controlled by a test on len(data)", ctx.loc(f, r))
+                continue
+            for n, bound in thr:
+                ck.check(R, bound == model["end"], f"decode_pdu: the header-only return is taken exactly when len(data) < {model['end']} (length field incomplete)",
+                         f"{ctx.fkey(f)}:header-only-threshold",
+                         f"decode_pdu returns (status, 0, b'') when len(data) < {bound}, but the length field ends at byte {model['end']}: "
+                         + ("a first fragment that carries the complete header and length field but no body byte loses its declared length - the continuation fragments are never read"
+                            if bound > model["end"] else "a fragment shorter than the length field reaches the unpack of the length field"),
+                         ctx.loc(f, n))
         for r, k in full:
             ck.check(R, k == model["end"], f"decode_pdu: the body starts at offset {model['end']}, right after the length field",
                      f"{ctx.fkey(f)}:body-offset", f"decode_pdu: the body is data[{k}:] but the header and length field end at {model['end']}", ctx.loc(f, r))
